@@ -86,11 +86,14 @@ class Ctx:
         self.samples = []
         self._sample_every = 1
         self.caps = []
+        self.watchdog = 0
 
     # -- exploration bookkeeping
     def case(self, key, nontrivial=True, sample=None):
         """Register one explored case. key: hashable canonical form."""
         self.evaluations += 1
+        if not self.evaluations & 63 and self.watchdog:
+            signal.setitimer(signal.ITIMER_REAL, self.watchdog)
         h = hash(key)
         self.states.add(h)
         if nontrivial:
@@ -102,6 +105,13 @@ class Ctx:
                 if len(self.samples) > 16:
                     self.samples = self.samples[::2]
                     self._sample_every *= 2
+
+    def rearm(self, seconds=None):
+        """(Re)start the watchdog, optionally with a new period."""
+        if seconds is not None:
+            self.watchdog = seconds if self.watchdog else 0
+        if self.watchdog:
+            signal.setitimer(signal.ITIMER_REAL, self.watchdog)
 
     def calls(self, n=1):
         self.transitions += n
@@ -244,17 +254,50 @@ def _run_one(indexed_task):
     mod, tier, seed = _WORK['mod'], _WORK['tier'], _WORK['seed']
     ctx = Ctx(mod.ID, tier, seed)
     t0 = time.time()
+    # watchdog: a case that does not return trips SIGALRM; re-armed by
+    # ctx.case() every 64 cases
+    ctx.watchdog = getattr(mod, 'WATCHDOG', 90)
+
+    def on_alarm(_sig, _frm):
+        raise Hang()
+    old_handler = signal.signal(signal.SIGALRM, on_alarm)
+    signal.setitimer(signal.ITIMER_REAL, ctx.watchdog)
     try:
         mod.run(task, ctx)
         err = None
+    except Hang:
+        err = None
+        last = ctx.samples[-1] if ctx.samples else None
+        ctx.cap('task %r abandoned: a call did not return within %d s' %
+                (task, ctx.watchdog))
+        ctx.violation('hang|%r' % (task,),
+                      'task {!r}: a library call did not return within {} s '
+                      '(after {} cases; last recorded case {})'.format(
+                          task, ctx.watchdog, ctx.evaluations, last),
+                      {'kind': 'hang', 'task': repr(task)}, 'termination',
+                      'no result within %d s' % ctx.watchdog)
     except BaseException:  # an engine error is a broken check, not a verdict
         err = 'task {!r}: {}'.format(task, traceback.format_exc())
+    finally:
+        signal.setitimer(signal.ITIMER_REAL, 0)
+        signal.signal(signal.SIGALRM, old_handler)
+        ctx.watchdog = 0
     out = ctx.export()
     out['index'] = idx
     out['task'] = repr(task)[:80]
     out['wall'] = time.time() - t0
     out['error'] = err
     return out
+
+
+def _limit_memory():
+    """A runaway allocation in a worker becomes MemoryError, not an OOM."""
+    try:
+        import resource
+        limit = int(os.environ.get('VERIF_WORKER_MEM', 6 << 30))
+        resource.setrlimit(resource.RLIMIT_AS, (limit, limit))
+    except (ImportError, ValueError, OSError):
+        pass
 
 
 def run_tasks(mod, tasks, tier, seed, workers=None):
@@ -268,7 +311,8 @@ def run_tasks(mod, tasks, tier, seed, workers=None):
         results = [_run_one(t) for t in indexed]
     else:
         ctxm = multiprocessing.get_context('fork')
-        with ctxm.Pool(min(workers, len(indexed))) as pool:
+        with ctxm.Pool(min(workers, len(indexed)),
+                       initializer=_limit_memory) as pool:
             for res in pool.imap_unordered(_run_one, indexed, chunksize=1):
                 results.append(res)
     results.sort(key=lambda r: r['index'])
